@@ -125,14 +125,21 @@ pub fn type_cast<Data: GarnishData>(this: &mut Data) -> Result<Option<Data::Size
             let (start, end, len) = get_range(this, range)?;
             match this.get_data_type(value.clone())? {
                 GarnishDataType::List => {
-                    let len = this.get_list_len(value.clone())?;
+                    // the new list has one item per number of the slice's range, not one per item of the sliced list
+                    let list_len = <Data as GarnishData>::DataFactory::size_to_number(this.get_list_len(value.clone())?);
 
-                    let mut list_index = this.start_list(len)?;
+                    let mut list_index = this.start_list(<Data as GarnishData>::DataFactory::number_to_size(len).unwrap_or(Data::Size::zero()))?;
 
                     let mut i = start;
 
                     while i <= end {
-                        let addr = match this.get_list_item(value.clone(), i.clone())? {
+                        // positions of the range outside the sliced list hold unit
+                        let item = if i < Data::Number::zero() || i >= list_len {
+                            None
+                        } else {
+                            this.get_list_item(value.clone(), i.clone())?
+                        };
+                        let addr = match item {
                             Some(addr) => addr,
                             None => {
                                 this.add_unit()?
@@ -196,12 +203,19 @@ pub fn type_cast<Data: GarnishData>(this: &mut Data) -> Result<Option<Data::Size
 }
 
 pub(crate) fn list_from_char_list<Data: GarnishData>(this: &mut Data, byte_list_addr: Data::Size, start: Data::Number, end: Data::Number) -> Result<Option<Data::Size>, RuntimeError<Data::Error>> {
-    let len = this.get_char_list_len(byte_list_addr.clone())?;
-    let mut count = start;
+    let len = <Data as GarnishData>::DataFactory::size_to_number(this.get_char_list_len(byte_list_addr.clone())?);
+    let mut count = start.clone();
 
-    let mut list_index = this.start_list(len)?;
+    // the new list has one item per position from start up to end, which is a part of the list when a slice is cast
+    let item_count = if end > start { end.clone().subtract(start).or_num_err()? } else { Data::Number::zero() };
+    let mut list_index = this.start_list(<Data as GarnishData>::DataFactory::number_to_size(item_count).unwrap_or(Data::Size::zero()))?;
     while count < end {
-        let c = this.get_char_list_item(byte_list_addr.clone(), count.clone())?;
+        // positions outside the list hold unit
+        let c = if count < Data::Number::zero() || count >= len {
+            None
+        } else {
+            this.get_char_list_item(byte_list_addr.clone(), count.clone())?
+        };
         let addr = match c {
             Some(c) => this.add_char(c)?,
             None => this.add_unit()?,
@@ -217,12 +231,19 @@ pub(crate) fn list_from_char_list<Data: GarnishData>(this: &mut Data, byte_list_
 }
 
 pub(crate) fn list_from_byte_list<Data: GarnishData>(this: &mut Data, byte_list_addr: Data::Size, start: Data::Number, end: Data::Number) -> Result<Option<Data::Size>, RuntimeError<Data::Error>> {
-    let len = this.get_byte_list_len(byte_list_addr.clone())?;
-    let mut count = start;
+    let len = <Data as GarnishData>::DataFactory::size_to_number(this.get_byte_list_len(byte_list_addr.clone())?);
+    let mut count = start.clone();
 
-    let mut list_index = this.start_list(len)?;
+    // the new list has one item per position from start up to end, which is a part of the list when a slice is cast
+    let item_count = if end > start { end.clone().subtract(start).or_num_err()? } else { Data::Number::zero() };
+    let mut list_index = this.start_list(<Data as GarnishData>::DataFactory::number_to_size(item_count).unwrap_or(Data::Size::zero()))?;
     while count < end {
-        let c = this.get_byte_list_item(byte_list_addr.clone(), count.clone())?;
+        // positions outside the list hold unit
+        let c = if count < Data::Number::zero() || count >= len {
+            None
+        } else {
+            this.get_byte_list_item(byte_list_addr.clone(), count.clone())?
+        };
         let addr = match c {
             Some(c) => this.add_byte(c)?,
             None => this.add_unit()?,
